@@ -4,6 +4,7 @@ C16: the vocabulary of the property statements (`PadOK`, `Admissible`, `npPad`,
 `Lemmas/Resize.lean` into statements over all modes.
 -/
 import OdlModel.Lemmas.ResizeND
+import OdlModel.Model.ResizeRef
 
 set_option linter.unusedVariables false
 set_option linter.unusedTactic false
@@ -28,16 +29,6 @@ on a resized axis the block fits (on an axis of unchanged length the offset is i
 if the axis grows the padding lengths respect the mode's limit. -/
 def Admissible (mode : Mode) (n m off : Nat) : Prop :=
   (n ≠ m → off + min n m ≤ max n m) ∧ (n < m → PadOK mode n off (m - n - off))
-
-/-- NumPy's padding (`constant`, `wrap`, `reflect`, `edge`) and, for `order1`, linear
-extrapolation — the reference the property names. -/
-def npPad {K : Type} [CommRing K] (mode : Mode) (n off : Nat) (c : K) (x : Nat → K) : Nat → K :=
-  match mode with
-  | .constant => npConstant n off c x
-  | .periodic => npWrap n off x
-  | .symmetric => npReflect n off x
-  | .order0 => npEdge n off x
-  | .order1 => linExtrap n off x
 
 /-- Per-axis admissibility of an n-d resize. -/
 def AdmissibleND (mode : Mode) : List Nat → List Nat → List Nat → Prop
@@ -188,5 +179,78 @@ theorem offsetsBad_false_of_adm {mode : Mode} : ∀ {sIn sOut offs : List Nat},
   | _ :: _, [], _, h => by simp [AdmissibleND] at h
   | _ :: _, _ :: _, [], h => by simp [AdmissibleND] at h
 
+/-- the first `pre.length` coordinates of `idx` lie in the box `pre` -/
+def Pref (pre idx : List Nat) : Prop := ∀ k < pre.length, idx.getD k 0 < pre.getD k 0
+
+theorem core_eq_ref (mode : Mode) (n m off : Nat) (c : K) (x : Nat → K)
+    (h : Admissible mode n m off) (i : Nat) (hi : i < m) :
+    resizeCore mode .forward n m off c x i = ref1d mode n m off c x i := by
+  unfold ref1d
+  split_ifs with h1 h2
+  · exact core_fwd_grow mode n m off c x h1 h i hi
+  · have := h.1 (by omega)
+    exact core_fwd_crop mode n m off c x (by omega) (by omega) i hi
+  · have e : n = m := by omega
+    subst e
+    exact core_same mode .forward n off c x i hi
+
+omit [CommRing K] [DecidableEq K] in
+theorem Pref_set (pre idx : List Nat) (ax j : Nat) (h : pre.length ≤ ax) :
+    Pref pre (idx.set ax j) ↔ Pref pre idx := by
+  unfold Pref
+  constructor <;> intro hp k hk <;> have := hp k hk <;>
+    simpa [List.getD_eq_getElem?_getD, List.getElem?_set_ne (show ax ≠ k by omega)] using this
+
+omit [CommRing K] [DecidableEq K] in
+theorem Pref_snoc (pre idx : List Nat) (m : Nat) :
+    Pref (pre ++ [m]) idx ↔ Pref pre idx ∧ idx.getD pre.length 0 < m := by
+  unfold Pref
+  have e1 : ∀ k, k < pre.length → (pre ++ [m]).getD k 0 = pre.getD k 0 := fun k hk => by
+    simp [List.getD_eq_getElem?_getD, List.getElem?_append_left hk]
+  have e2 : (pre ++ [m]).getD pre.length 0 = m := by
+    simp [List.getD_eq_getElem?_getD]
+  constructor
+  · intro hp
+    refine ⟨fun k hk => ?_, ?_⟩
+    · have := hp k (by simp; omega)
+      rwa [e1 k hk] at this
+    · have := hp pre.length (by simp)
+      rwa [e2] at this
+  · rintro ⟨h1, h2⟩ k hk
+    simp only [List.length_append, List.length_cons, List.length_nil] at hk
+    by_cases hk' : k < pre.length
+    · rw [e1 k hk']; exact h1 k hk'
+    · have : k = pre.length := by omega
+      subst this
+      rw [e2]; exact h2
+
+theorem fwd_axes_eq_ref (mode : Mode) (c : K) :
+    ∀ (sIn sOut offs pre : List Nat) (Z Z' : List Nat → K), AdmissibleND mode sIn sOut offs →
+      (∀ idx, Pref pre idx → Z idx = Z' idx) → ∀ idx, Pref (pre ++ sOut) idx →
+      resizeAxes mode .forward c pre.length sIn sOut offs Z idx =
+        refAxes mode c pre.length sIn sOut offs Z' idx
+  | [], [], [], pre, Z, Z', _, hZ, idx, hp => by
+    simp only [resizeAxes, refAxes]
+    exact hZ idx (by simpa using hp)
+  | n :: sIn, m :: sOut, off :: offs, pre, Z, Z', h, hZ, idx, hp => by
+    simp only [resizeAxes, refAxes]
+    have ih := fwd_axes_eq_ref mode c sIn sOut offs (pre ++ [m])
+      (alongAxis pre.length (resizeCore mode .forward n m off c) Z)
+      (alongAxis pre.length (ref1d mode n m off c) Z') h.2
+    simp only [List.length_append, List.length_cons, List.length_nil, Nat.zero_add,
+      List.append_assoc, List.cons_append, List.nil_append] at ih
+    refine ih ?_ idx hp
+    intro jdx hj
+    obtain ⟨hj1, hj2⟩ := (Pref_snoc pre jdx m).1 hj
+    simp only [alongAxis]
+    have hf : (fun j => Z (jdx.set pre.length j)) = (fun j => Z' (jdx.set pre.length j)) := by
+      funext j
+      exact hZ _ ((Pref_set pre jdx pre.length j (le_refl _)).2 hj1)
+    rw [hf]
+    exact core_eq_ref mode n m off c _ h.1 _ hj2
+  | [], [], _ :: _, _, _, _, h, _, _, _ => by simp [AdmissibleND] at h
+  | [], _ :: _, _, _, _, _, h, _, _, _ => by simp [AdmissibleND] at h
+  | _ :: _, [], _, _, _, _, h, _, _, _ => by simp [AdmissibleND] at h
+  | _ :: _, _ :: _, [], _, _, _, h, _, _, _ => by simp [AdmissibleND] at h
 end
 end OdlModel.C16
